@@ -129,7 +129,7 @@ def run (op : String) (a : Json) : Option (Except String Json) :=
         ("text", match sourceE W v var with | .ok t => jStr t | .error e => jStr (cs!"RAISES:" ++ e.name)),
         ("outcome", jStr (outcome W v)),
         -- the hypotheses of Props.C18.code_rt_partial on this input
-        ("hyps", jObj [("wf", jBool (wf W v)), ("dom", jBool (domOK W v)), ("renders", jBool (renders W v)),
+        ("hyps", jObj [("wf", jBool (wf W v)), ("dom", jBool (domOK W v)), ("renders", jBool (renders W v)), ("nesting", jBool (nestingOK W v)),
                        ("reprs", jBool (reprsAgree v))]),
         ("imports", jList (fun p => Json.arr #[jStr p.1, jStr p.2]) (importsEnv W v))])
   | "c18.dq" => some do
